@@ -301,6 +301,25 @@ def explore(ctx):
         st_ = pq.new(path, None)
         cnt = pq.count_instances(path)
         query_cases.append((f'(3%Z, ({nq})%Z)', [cnt] + ([0] if st_ is None else [1, st_.index, st_.chunk, st_.instances])))
+    # --clang-delta-preserve-routine: the count query and the transformation must be given the SAME routine (the count the
+    # cursor starts from is the count of what the transformation will see)
+    for std in (None, 'c++14'):
+        scen = setup(ctx, {'caps': {}})
+        path = os.path.join(ctx.tmp, 'tc.cc')
+        with open(path, 'w') as f:
+            f.write(''.join(f'I{i}\n' for i in range(5)))
+        pp = mk_pass('bin', std)
+        pp.clang_delta_preserve_routine = 'f3'
+        run_ref(pp, path, lambda c: False, ctx.tmp, max_steps=60)
+        seen = {}
+        for r_ in read_log(scen):
+            vals = tuple(a for a in r_['argv'] if a.startswith('--preserve-routine'))
+            seen.setdefault(vals, []).append('query' if r_['query'] else 'transform')
+        ctx.evaluations += 1
+        ctx.count('preserve-routine-argument')
+        if len(seen) != 1 or () in seen:
+            ctx.violation('preserve-routine-differs', f'--clang-delta-preserve-routine f3: the tool was called with {dict((k, sorted(set(v))) for k, v in seen.items())}',
+                          {'kind': 'preserve', 'std': std})
     # the count query that seeds the cursor fails (hangs past the timeout, exits non-zero, prints no count): there is no count
     # to stay within, so no range may be requested at all
     for std in (['c++17'] if ctx.quick() else ['c++98', 'c++17', 'c++2b']):
@@ -374,6 +393,9 @@ def replay(ctx, payload):
         print('replay:', why)
         if why:
             ctx.violation('clang-driving-dependent-instances', why, r)
+        return
+    if r['kind'] == 'preserve':
+        explore(ctx)
         return
     if r['kind'] == 'seedfault':
         scen = setup(ctx, {'caps': {}, 'query_faults': {r['std']: r['fault']}, 'sleep': 3.0})
